@@ -2,6 +2,7 @@
 package c06
 
 import (
+	"encoding/json"
 	"fmt"
 	"github.com/hashicorp/hcl/v2/ext/dynblock"
 	"github.com/hashicorp/hcl/v2/hcldec"
@@ -10,6 +11,7 @@ import (
 
 	"github.com/hashicorp/hcl/v2"
 	"github.com/hashicorp/hcl/v2/hclsyntax"
+	hcljson "github.com/hashicorp/hcl/v2/json"
 	"github.com/zclconf/go-cty/cty"
 	"github.com/zclconf/go-cty/cty/convert"
 
@@ -134,6 +136,19 @@ func Handle(c *core.Check, st core.State) {
 	base := e1.Scope()
 	alts := e1.Alternates()
 	nontrivial := false
+	// the JSON syntax's own evaluation paths: the expression as a (template) object KEY, bare and
+	// with a literal prefix (the value paths of JSON strings are the native template evaluator)
+	var jforms []hcl.Expression
+	var jsrcs []string
+	if !strings.Contains(src, "<<") {
+		inner, _ := json.Marshal("${" + src + "}")
+		for _, js := range []string{`{` + string(inner) + `: 1}`, `{"p-` + string(inner[1:len(inner)-1]) + `": 1}`} {
+			if je, jd := hcljson.ParseExpression([]byte(js), "k.json"); !jd.HasErrors() {
+				jforms = append(jforms, je)
+				jsrcs = append(jsrcs, js)
+			}
+		}
+	}
 	for _, x := range v.FV {
 		bv, ok := base[x]
 		if !ok {
@@ -168,6 +183,42 @@ func Handle(c *core.Check, st core.State) {
 			}
 			if panicked {
 				return
+			}
+			for ji, je := range jforms {
+				var jr [2]cty.Value
+				var jd [2]hcl.Diagnostics
+				for i, mv := range []cty.Value{p.a, p.b} {
+					sc := map[string]cty.Value{}
+					for k, val := range base {
+						sc[k] = val
+					}
+					sc[x] = mv
+					c.Count("evaluations", 1)
+					if rec, pn := core.Guard(func() { jr[i], jd[i] = je.Value(&hcl.EvalContext{Variables: sc, Functions: funcs}) }); pn {
+						c.Violation("panic/json-object-key", fmt.Sprintf("JSON expression %s panicked with %s = %s (%s mark): %v", jsrcs[ji], x, e1.Describe(mv), p.how, rec),
+							map[string]any{"state": st.Raw, "source": src, "json": jsrcs[ji]})
+						return
+					}
+				}
+				if jd[0].HasErrors() || jd[1].HasErrors() {
+					continue
+				}
+				j0, _ := jr[0].UnmarkDeep()
+				j1, _ := jr[1].UnmarkDeep()
+				// (when the key expression itself already launders the mark natively, that root cause is
+				// reported, or listed, under its own name below)
+				nativeLaunders := false
+				if !d[0].HasErrors() && !d[1].HasErrors() {
+					n0, _ := r[0].UnmarkDeep()
+					n1, _ := r[1].UnmarkDeep()
+					nativeLaunders = !n0.RawEquals(n1) && (!HasMark(r[0]) || !HasMark(r[1]))
+				}
+				if !j0.RawEquals(j1) && (!HasMark(jr[0]) || !HasMark(jr[1])) && !nativeLaunders {
+					if !c.Violation("mark-lost/json-object-key", fmt.Sprintf("JSON expression %s: with %s = %s the result is %s, with %s = %s it is %s; the result depends on the marked variable but does not carry its mark",
+						jsrcs[ji], x, e1.Describe(p.a), e1.Describe(jr[0]), x, e1.Describe(p.b), e1.Describe(jr[1])), map[string]any{"state": st.Raw, "source": src, "json": jsrcs[ji]}) {
+						return
+					}
+				}
 			}
 			if d[0].HasErrors() || d[1].HasErrors() {
 				continue
